@@ -62,7 +62,11 @@ check("C06", "other",
       "`>=3 backticks + backtick-free info string` line and returns pieces that re-assemble the line (all UTF-8 lines <= 6/8 "
       "bytes); (b) MarkdownIterator driven to exhaustion on every document of <= 3/4 short ASCII lines: tokens account for "
       "every line once, in order, with its index, blocks end exactly at their closing line or at the end of the document — "
-      "nothing is dropped, hidden or truncated. Titles, YAML, expectation parsing and test-case field contents are not claimed.",
+      "nothing is dropped, hidden or truncated; (c) the whole MarkdownParser::parse on every template document of <= 4/5 lines (prose, headings, "
+      "blank, scrut / foreign / bare fences of three and four backticks, indented backtick runs, commands, continuations, expectations, exit "
+      "code, inline configuration with and without a trailing blank, titles opening with a non-ASCII letter, front-matter incl. empty and "
+      "unterminated) vs the statement: test count, command, expectations, exit code, line number, title where unambiguous, and the inline "
+      "configuration text handed to the YAML reader. YAML contents, CRLF documents and long documents are not claimed.",
       E2_NOTE, E2_TECH, "E2+E1", "DESIGN.md §3 C06")
 
 check("C04", "other",
@@ -70,7 +74,9 @@ check("C04", "other",
       "escaped: matches ⇔ trimmed line == stored bytes, and make() stores the documented decoding (\\t, \\xHH, \\\\, text); "
       "regex: scrut's own part — rewrites + anchoring wrapper — with the engine replaced by a small regex semantics on a "
       "symbolic line: matches ⇔ whole line in L(e) for all expressions over {a,b,|} up to length 3/4 plus curated ones; "
-      "cram glob: glob→regex translation ⇔ glob semantics. The wildmatch engine (kind `glob`) and the regex engine are not encoded.",
+      "cram glob: glob→regex translation ⇔ glob semantics, and CramGlobRule::make + matches ⇔ glob semantics counted in characters on lines "
+      "with characters of every UTF-8 width (the options the rule builds its regex with are modelled). Expressions over {a,|,^,$,\\} cover "
+      "user-written anchors. The wildmatch engine (kind `glob`) and the regex engine are not encoded.",
       E2_NOTE + " Additionally trusts lib/miniregex.py (validated against the regex crate on concrete samples each run).",
       E2_TECH, "E2", "DESIGN.md §3 C04")
 
@@ -178,8 +184,9 @@ check("C20", "other",
       "skipped); a skipped document never fails the run; after a time-out the rest is skipped; run returns Err(ValidationFailed) iff "
       "something failed or timed out, another error iff a document could not be executed; main maps these to 50 / 1 / 0. Executor calls "
       "of <= 3/4 test cases (5 with a reduced alphabet), every result shape; 2 documents with representative results. Witnesses are replayed "
-      "through the real binary on real documents. That the executors run each test case once and in order, file discovery, parse errors, "
-      "Cram/directories are not claimed.",
+      "through the real binary on real documents. FileParser::find_and_parse yields one parsed document per explicitly named file in the order "
+      "given (every ordered selection of 1..3 of 4 paths; file system stubbed). That the executors run each test case once and in order, "
+      "directory listing order, parse errors and Cram documents are not claimed.",
       E2_NOTE + " Stubs as listed in the evidence; the executor-result shapes are validated every run by real `scrut test` runs on sampled scripts.",
       "bounded symbolic execution of the MIR of commands::test::Args::run and main (bin crate) with a scripted executor and free validation verdicts; "
       "z3 decides each path's postcondition; witnesses replayed end to end through the real scrut binary", "E2", "DESIGN.md §3 C20")
